@@ -155,8 +155,13 @@ class _STIXBase(collections.abc.Mapping):
                         ext_id, "2.1", "extensions",
                     )
                     if registered_ext_class:
+                        # (the registered class need not be a toplevel
+                        # extension, whatever the content claims)
                         registered_toplevel_extension_props.update(
-                            registered_ext_class._toplevel_properties,
+                            getattr(
+                                registered_ext_class,
+                                "_toplevel_properties", {},
+                            ),
                         )
                     else:
                         has_unregistered_toplevel_extension = True
